@@ -16,7 +16,7 @@ use rustc_hir::def::DefKind;
 use rustc_hir::def_id::{DefId, LocalDefId, LOCAL_CRATE};
 use rustc_interface::interface::Compiler;
 use rustc_middle::mir::*;
-use rustc_middle::ty::print::with_no_trimmed_paths;
+use rustc_middle::ty::print::{with_no_trimmed_paths, with_no_visible_paths};
 use rustc_middle::ty::{self, Ty, TyCtxt};
 use rustc_span::{ExpnKind, Span};
 use std::fmt::Write as _;
@@ -333,6 +333,12 @@ impl<'tcx> Cx<'tcx> {
             self.out.push(',');
             let full = with_no_trimmed_paths!(tcx.def_path_str_with_args(def_id, args));
             self.kv_s("fnargs", &full);
+            if !def_id.is_local() && tcx.crate_name(def_id.krate).as_str() == "redis_sim" {
+                // true definition path (not the re-export a bin sees): joins bin call sites to lib bodies
+                self.out.push(',');
+                let x = with_no_visible_paths!(with_no_trimmed_paths!(tcx.def_path_str(def_id)));
+                self.kv_s("xfn", &x);
+            }
             // self type (first generic arg) for trait methods
             if let Some(tr) = tcx.trait_of_assoc(def_id) {
                 self.out.push(',');
